@@ -42,8 +42,10 @@ KnownNode(n) == \E y \in DRange(cfg.nodes) : y.name = n
 PodNamed(ns, n) == CHOOSE x \in DRange(cfg.pods) : x.ns = ns /\ x.name = n
 Leaving(ns, n) == /\ \E x \in DRange(cfg.pods) : x.ns = ns /\ x.name = n
                   /\ LET nd == PodNamed(ns, n).node IN nd # "" /\ KnownNode(nd) /\ LET y == CHOOSE z \in DRange(cfg.nodes) : z.name = nd IN y.marked \/ y.deleting
-Migrating(c) == c.alloc # <<>> /\ c.reserved # <<>> /\ c.others = 0 /\ \A i \in DOMAIN c.reserved : Leaving(c.ns, c.reserved[i])
-EffDra == [cfg.dra EXCEPT !.claims = [i \in DOMAIN cfg.dra.claims |-> IF Migrating(cfg.dra.claims[i]) THEN [cfg.dra.claims[i] EXCEPT !.alloc = <<>>] ELSE cfg.dra.claims[i]]]
+\* (claims and the pods they are reserved for share a namespace; the generated scenarios use one namespace)
+LeavingPods == {x.name : x \in {y \in DRange(cfg.pods) : Leaving(y.ns, y.name)}}
+Migrating(c) == MigratingC(c, LeavingPods)
+EffDra == EffD(cfg.dra, LeavingPods)
 (* Witness class of known finding F-C17-1: a published device on which EVERY pod consumer (over all claims holding it) is   *)
 (* leaving, although a claim that does not migrate (no pod consumers at all, or a non-pod consumer) holds it too.  IgnDra      *)
 (* additionally forgets the allocations on such devices; a failure that disappears under IgnDra belongs to this class.         *)
